@@ -277,6 +277,20 @@ def w3(prog, ctx):
         ret = [s for s in f.body if isinstance(s, ast.Return)]
         if len(ret) != 1:
             raise AnalysisError("%s.confirms_feature: expected a single return" % cls)
+        # the uniqueness that confirms a feature is judged on the same level (gene / transcript) as the type the counter counts by
+        gt = prog.func(LRC, cls + ".get_assignment_type")
+        gret = [s for s in gt.body if isinstance(s, ast.Return) and isinstance(s.value, ast.Attribute)]
+        level_attr = gret[0].value.attr if len(gret) == 1 else None
+        used = {a.value.attr for a in ast.walk(ret[0].value) if isinstance(a, ast.Attribute) and a.attr == "is_unique" and isinstance(a.value, ast.Attribute)}
+        if level_attr is None or not used:
+            ctx.undecided("W3", ret[0], f._qualname, "the assignment-type attribute of %s could not be identified" % cls)
+        elif used != {level_attr}:
+            ctx.fail("W3", ret[0], f._qualname, src(ret[0]),
+                     "%s counts reads by <read>.%s (get_assignment_type) but lets a read confirm its feature by <read>.%s.is_unique(): a read that "
+                     "is unique on the counted level and ambiguous on the other one is counted 1.0 and does not confirm, so a feature supported "
+                     "only by such reads is zeroed in dump()" % (cls, level_attr, sorted(used)[0]))
+        else:
+            ctx.ok("W3", "%s:%d" % (LRC, ret[0].lineno), "%s: confirmation and counting both read <read>.%s" % (cls, level_attr))
         atoms = []
         for a in flow.atoms(ret[0].value):
             if src(a) not in [src(x) for x in atoms]:
